@@ -79,7 +79,7 @@ CHECKS = {
     text="Lean theorems about the model of summary(): its rows only concern the requested feature(s) (summary_feature_only, summary_features), an unknown feature is refused, and the entries of a "
          "qualitative feature are (value, label) pairs of the very label table transform uses. Correspondence: summary() and summary(f) of real objects (also rebuilt from JSON) equal the model's; "
          "judged on the code: listed features, partition of known values, labels vs transform on a probe frame, missing values shown where transform sends them; history(): every recorded "
-         "association value is recomputed exactly by the Lean search model, first entry = raw distribution, last viable entry = fitted grouping. history(): the way _get_best_association tests and records its candidates is modelled (Model/History) and proved: every tested combination is recorded, the flags of a round are rejected..., at most one viable, then unchecked, unchecked combinations are at most as associated as the winner, and for a kept feature the last combination flagged viable is the fitted grouping over both rounds (twoRounds_lastViable_is_fit); judge.history evaluates that shape and the ordering on the implementation's own history.",
+         "association value is recomputed exactly by the Lean search model and every recorded viability flag is compared with the model of _test_viability on that very combination, first entry = raw distribution, last viable entry = fitted grouping. history(): the way _get_best_association tests and records its candidates is modelled (Model/History) and proved: every tested combination is recorded, the flags of a round are rejected..., at most one viable, then unchecked, unchecked combinations are at most as associated as the winner, and for a kept feature the last combination flagged viable is the fitted grouping over both rounds (twoRounds_lastViable_is_fit); judge.history evaluates that shape and the ordering on the implementation's own history.",
     ref="DESIGN.md section 8 C16", technique="Lean 4 proof about the summary model and the test-and-record logic of history + exact recomputation of history by the search model",
     note=BASE_NOTE + " Row order / content order of the summary frame are not compared."),
  "C08": dict(
